@@ -6,9 +6,9 @@ READY = True
 META = {
     "technique": "Lean 4 proof over an output state machine (sink script x write_all x WriteWrapper x capture stack x VM op sequence) + differential fault injection at every write call of real renders",
     "category": "proof",
-    "text": "Kernel-checked theorems for EVERY sequence of output operations and EVERY per-call sink behaviour (accept all / k bytes / half / zero / Err of any kind incl. Interrupted): the bytes the sink accepted are a prefix of the string the plain render builds; a call at which the sink failed is the last call it sees; the API then returns WriteFailure whose source is exactly the sink's error (whatever include/super nesting was unwound), never Ok, never another kind, never a panic; without a sink failure result and bytes equal the plain render's; captured/discarded regions never reach the sink. The model is tied to /repo by running real templates (fixed set + generated: macros, call blocks, set/filter blocks, includes, imports, inheritance with super, recursive loops, autoescape, big values, custom objects) through Template::render_captured_to and State::render_block_to_write (direct, from a template function, with a custom formatter) into an instrumented io::Write that fails at every k-th write call with every behaviour; the chunks of the clean run and the failure script are fed to the Lean model and calls/accepted bytes/checksums/log digest/result compared; the property itself is evaluated on the real observations.",
+    "text": "Kernel-checked theorems for EVERY sequence of output operations and EVERY per-call sink behaviour (accept all / k bytes / half / zero / Err of any kind incl. Interrupted): the bytes the sink accepted are a prefix of the string the plain render builds; a call at which the sink failed is the last call it sees; the API then returns WriteFailure whose source is exactly the sink's error (whatever include/super nesting was unwound), never Ok, never another kind, never a panic; without a sink failure result and bytes equal the plain render's; captured/discarded regions never reach the sink. The model is tied to /repo by running real templates (fixed set + generated: macros, call blocks, set/filter blocks, includes, imports, inheritance with super, recursive loops, autoescape, big values, custom objects) through Template::render_captured_to and State::render_block_to_write (direct, from a template function, with a custom formatter) into an instrumented io::Write that fails at every k-th write call with every behaviour; the REAL sequence of output operations of every render (feature-guarded hook verif_hooks::output: each write_str/write_char on the Output with the target it was routed to, begin/end capture with the captured value, include/super nesting) and the failure script are fed to the Lean model: the model's capture stack must route every real write where the engine did and pop the values the engine popped, and run(ops, sink) must reproduce the sink's calls, accepted bytes, checksums, log digest, result and the number of operations executed; the log of every failing run must be the clean log cut at the failing write; the log of the plain String render must equal the writer run's. A second family of programs is generated as terms of the model's structured layer (set/filter blocks, macros, includes, inheritance with super, loops, errors), unparsed to templates, and the big-step exec of the term is compared with the engine, its flattening with the real operation log. The property itself is evaluated on the real observations.",
     "design_ref": "DESIGN.md §3 C19",
-    "level_note": "Trusted: Lean kernel; hand transcription of output.rs (Output, WriteWrapper, take_err), std write_all, and the emit/capture/include/super skeleton of vm/mod.rs into MJ/Model/Output.lean. That the VM performs a sink-independent op sequence and stops at the first fmt::Error (every emit site propagates it) is a modelling assumption validated by the fault injection at every write call of every program, not proved about the Rust source. Custom formatters / Object::render implementations that swallow fmt::Error are outside the property.",
+    "level_note": "Trusted: Lean kernel; hand transcription of output.rs (Output, WriteWrapper, take_err), std write_all, and the emit/capture/include/super skeleton of vm/mod.rs into MJ/Model/Output.lean. That the VM performs a sink-independent op sequence and stops at the first fmt::Error (every emit site propagates it) is validated, not proved about the Rust source: by the hook log (same operations for String and io::Write base writers; every failing run's log is a prefix of the clean log ending at the failing write) and the fault injection at every write call of every program. The hook's routing annotation is computed from the capture stack (the raw target pointer is covered only through the sink's calls). The harness builds minijinja with verif_hooks on (write_fmt is then routed piecewise through the logging write_str/write_char). Custom formatters / Object::render implementations that swallow fmt::Error are outside the property.",
 }
 
 
@@ -73,7 +73,9 @@ def run(r):
               "with custom formatter, render_block_to_write per block, render_block_to_write inside a function): failure at every "
               "write call k < W of the clean run with BrokenPipe/Other/WouldBlock/Interrupted, 1-byte and half short writes, "
               "zero-length write; plus persistent short writes, late/never-reached failures, random mixed scripts ending in a "
-              "hard failure. A case is non-trivial when it is distinct and the clean run makes at least one write call")
+              "hard failure; a third family generated as terms of the model's structured layer and unparsed to templates "
+              "(APIs full, fmt); 8 expressions evaluated on Output::null. Model input = the engine's real output-operation log. "
+              "A case is non-trivial when it is distinct and the clean run makes at least one write call")
     r.assumptions = [
         "the sink honours io::Write::write's contract n <= buf.len() and does not answer Interrupted forever",
         "the VM's sequence of output operations does not depend on the sink (it cannot observe it except through fmt::Error)",
@@ -94,7 +96,7 @@ def run(r):
         r.broken.append("model driver output does not line up with the harness cases")
         model = None
     clean_res, cur_w = {}, 0
-    n_prog = n_skip = n_fail_cases = n_ok_cases = 0
+    n_prog = n_skip = n_fail_cases = n_ok_cases = n_routed = n_prefix = 0
     apis_with_failures = set()
     for i, line in enumerate(lines):
         f = line.split("\t")
@@ -102,6 +104,13 @@ def run(r):
         if tag == "skip":
             n_skip += 1
             r.hist["skipped"][f[2]] += 1
+            continue
+        if tag == "null":
+            o = kv(f[2])
+            r.count("null " + key, True)
+            r.hist["null_output"][o["res"]] += 1
+            if o["new_null"] != "1" or o["nondiscard"] != "0":
+                r.broken.append("Expression::eval did not evaluate on a discarding Output::null(): %s %s" % (key, f[2]))
             continue
         pid, api = key.split(" ")[0:2]
         if tag == "prog":
@@ -111,17 +120,34 @@ def run(r):
             cur_w = int(o["w"])
             r.hist["api"][api_class(api)] += 1
             r.hist["clean_W"][min(cur_w // 10 * 10, 200)] += 1
-            r.hist["program"]["fixed" if pid.startswith("f") else "generated"] += 1
+            fam = {"f": "fixed", "g": "generated", "s": "structured"}[pid[0]]
+            r.hist["program"][fam] += 1
+            r.hist["real_ops_per_render"][min(int(o["route"].split(":")[1]) // 20 * 20, 400)] += 1
+            r.hist["captures_per_render"][min(int(o["route"].split(":")[2]), 20)] += 1
+            r.hist["emit_of_captured_value"][min(int(o["capemit"]), 10)] += 1
+            r.hist["string_apis"][o["strapis"]] += 1
             r.count("prog " + key[:200], cur_w > 0)
+            case0 = "%s %s -" % (pid, api)
             if o["res"] == "panic":
-                r.oracle_failure("%s %s -" % (pid, api), "clean render into a writer panicked", "panic:" + api_class(api))
+                r.oracle_failure(case0, "clean render into a writer panicked", "panic:" + api_class(api))
             elif o["same"] != "1":
-                r.oracle_failure("%s %s -" % (pid, api), "with a never-failing writer the result/bytes differ from the plain render (res=%s plain=%s)" % (o["res"], o["plain"]),
+                r.oracle_failure(case0, "with a never-failing writer the result/bytes differ from the plain render (res=%s plain=%s)" % (o["res"], o["plain"]),
                                  "clean-differs-from-plain:" + api_class(api))
+            if o["strapis"] == "differ":
+                r.oracle_failure(case0, "Environment::render_str/render_named_str differ from Template::render", "string-apis-differ")
+            # ties of the model's assumptions to the engine (no property failure by themselves)
+            if o["plainops"] != "same":
+                r.broken.append("the engine's output operations depend on the base writer (String vs io::Write): " + case0)
+            if o["sinkcalls"] != "same":
+                r.broken.append("the sink's calls of a clean run are not the non-empty base writes of the operation log: " + case0)
             if model is not None:
                 mm = kv(model[i].split("\t")[2])
-                if (mm.get("chunks"), mm.get("bytes"), mm.get("sum")) != (o["w"], o["bytes"], o["sum"]):
-                    r.model_disagreement(key[:120], f[2], model[i].split("\t")[2])
+                if (mm.get("chunks"), mm.get("bytes"), mm.get("sum"), mm.get("route")) != (o["w"], o["bytes"], o["sum"], o["route"]):
+                    r.model_disagreement(case0, " ".join(f[2].split(" ")[:4]), model[i].split("\t")[2])
+                elif mm.get("flat") != o["flat"] and not (o["flat"] == "any" and mm.get("flat") in ("same", "erased-same")):
+                    r.model_disagreement(case0, "structured program: expected flatten = real ops: " + o["flat"], "flat=" + str(mm.get("flat")))
+                r.hist["structured_flatten"][mm.get("flat")] += 1
+                n_routed += int(o["route"].split(":")[1])
             continue
         if tag != "case":
             r.broken.append("unparsable harness line: " + line[:100])
@@ -140,6 +166,10 @@ def run(r):
             r.hist["failure_position"]["first" if pos == 0 else ("last" if pos + 1 >= cur_w else "middle")] += 1
         else:
             n_ok_cases += 1
+        if m["ops"].startswith("MISMATCH"):
+            r.broken.append("operation log of a run is not the clean run's log cut at the failing write: %s %s" % (key, m["ops"]))
+        else:
+            n_prefix += 1
         judge(r, key, api, clean_res.get((pid, api), "?"), m, o)
         if model is not None:
             mf = model[i].split("\t")
@@ -148,11 +178,16 @@ def run(r):
         if i % 11003 == 0:
             r.sample({"case": key, "engine": f[2], "observed": f[3]})
     r.extra["programs_x_apis"] = n_prog
+    r.extra["real_write_ops_routed_by_model"] = n_routed
+    r.extra["runs_whose_op_log_is_prefix_of_clean_log"] = n_prefix
     r.extra["cases_with_sink_failure"] = n_fail_cases
     r.extra["cases_without_sink_failure"] = n_ok_cases
     if n_skip > max(3, n_prog // 20):
         r.broken.append(f"{n_skip} generated programs did not compile — generator out of date with the template syntax")
     # non-vacuity of the tie
+    sf = r.hist["structured_flatten"]
+    if model is not None and (sf["same"] < 40 or sf["erased-same"] < 40 or n_routed < 5000):
+        r.broken.append("structured/op-log tie degenerate: flatten verdicts %s, routed writes %d" % (dict(sf), n_routed))
     if n_fail_cases < 1000 or n_ok_cases < 1000 or not {"full", "fmt", "block", "fn"} <= apis_with_failures:
         r.broken.append("fault injection degenerate: %d failing / %d clean cases, apis %s" % (n_fail_cases, n_ok_cases, sorted(apis_with_failures)))
 
